@@ -135,6 +135,8 @@ def run_task(source, contracts, loops, qualname, natives=None, timeout_ms=10000,
     ctx.raised = []
     if contract is not None and getattr(contract, "ground_rounds", None):
         ctx.ground_rounds = contract.ground_rounds
+    if contract is not None and getattr(contract, "max_terms", None):
+        ctx.max_terms = contract.max_terms
     if contract is not None and isinstance(contract.raises, dict):
         ctx.allowed_raises = {k: True for k in contract.raises}
     ex = Exec(ctx)
@@ -228,6 +230,11 @@ def run_task(source, contracts, loops, qualname, natives=None, timeout_ms=10000,
                         lo, hi = vals.to_int_term(ev.ev(lo_src)), vals.to_int_term(ev.ev(hi_src))
                         cond = vals.zbool(vals.truthy_term(ev.ev(cond_src), st.heap)) if cond_src else z3.BoolVal(True)
                         st.heap[ser.oid].read_frame = (z3.If(cond, lo, z3.IntVal(0)), z3.If(cond, hi, z3.IntVal(-1)))
+            # ghost integers (list length, split points) and their neighbours are instantiation terms
+            for gv in getattr(ctx, "ghost_env", {}).values():
+                if isinstance(gv, vals.SInt):
+                    for d in (-1, 0, 1):
+                        st.inst_terms.append(("term", z3.simplify(gv.t + d)))
             if not ctx.feasible(st):
                 # a contradictory precondition would make every obligation vacuous
                 res.out_of_reach = "vacuous: precondition unsatisfiable"
